@@ -18,6 +18,7 @@ import (
 )
 
 type Verifier struct {
+	failedOnce map[string]*Failure // obligations that already failed on some path: further instances are not re-solved
 	repo    string
 	verif   string
 	prog    *ssa.Program
@@ -230,7 +231,7 @@ func scriptText(env *Env, items []Item, upto int, s solverDef, timeoutS int, sta
 			continue
 		}
 		if standalone && i != upto {
-			if !it.Ob.Cover && it.Ob.Formula != "false" {
+			if !it.Ob.Cover && it.Ob.Formula != "false" && !it.Ob.NoAssume {
 				sb.WriteString("(assert " + it.Ob.Formula + ")\n")
 			}
 			continue
@@ -248,7 +249,7 @@ func scriptText(env *Env, items []Item, upto int, s solverDef, timeoutS int, sta
 				sb.WriteString("(get-model)\n")
 			}
 			sb.WriteString("(pop 1)\n")
-			if it.Ob.Formula != "false" {
+			if it.Ob.Formula != "false" && !it.Ob.NoAssume {
 				sb.WriteString("(assert " + it.Ob.Formula + ")\n")
 			}
 		}
@@ -381,13 +382,60 @@ func contains(a []string, s string) bool {
 
 func (v *Verifier) solveScript(fx *FnCtx, sc *Script, n int, filter func(string) bool, record func(*Oblig, string, string, float64, *Failure)) {
 	primary := solvers[v.seed%1] // z3-new first
-	text, obIdx := scriptText(fx.env, sc.Items, len(sc.Items), primary, v.timeout, false)
-	if v.keep != "" {
-		os.WriteFile(filepath.Join(v.keep, fmt.Sprintf("%s.path%d.smt2", sanitize(fx.short), n)), []byte(text), 0644)
+	var text, out string
+	var obIdx []int
+	var ms float64
+	nOb := 0
+	type decision struct {
+		status, by string
+		ms         float64
+		fail       *Failure
 	}
-	nOb := len(obIdx)
-	out, ms := runSolver(primary, text, time.Duration(v.timeout*(nOb+1)+5)*time.Second)
-	v.stat(primary.name, ms)
+	decided := map[int]decision{}
+	// An obligation that is proved is assumed by the obligations after it on the same path. One that is NOT proved
+	// must not be: assuming a false formula would make everything after it vacuously true. So the script is re-run
+	// with the unproved ones left out of the assumptions until no new one turns up.
+	for round := 0; round < 8; round++ {
+		text, obIdx = scriptText(fx.env, sc.Items, len(sc.Items), primary, v.timeout, false)
+		if v.keep != "" {
+			os.WriteFile(filepath.Join(v.keep, fmt.Sprintf("%s.path%d.smt2", sanitize(fx.short), n)), []byte(text), 0644)
+		}
+		nOb = len(obIdx)
+		var ms1 float64
+		out, ms1 = runSolver(primary, text, time.Duration(v.timeout*(nOb+1)+5)*time.Second)
+		ms += ms1
+		v.stat(primary.name, ms1)
+		a0 := parseAnswers(out)
+		changed := false
+		for _, i := range obIdx {
+			ob := sc.Items[i].Ob
+			if ob.Cover || ob.NoAssume || a0[i] == "unsat" || ob.Formula == "false" {
+				continue
+			}
+			if _, done := decided[i]; done {
+				continue
+			}
+			v.mu.Lock()
+			prev := v.failedOnce[ob.Name]
+			v.mu.Unlock()
+			if prev != nil {
+				decided[i] = decision{"failed", "", 0, &Failure{Trace: sc.Trace, Answers: prev.Answers, Formula: ob.Formula, Model: prev.Model}}
+			} else {
+				// the other back ends get a say before the obligation counts as unproved (earlier unproved ones are
+				// already left out of its assumptions)
+				v.standalone(fx, sc, n, i, func(_ *Oblig, status, by string, ms float64, f *Failure) {
+					decided[i] = decision{status, by, ms, f}
+				})
+			}
+			if decided[i].status != "ok" {
+				ob.NoAssume = true
+				changed = true
+			}
+		}
+		if !changed {
+			break
+		}
+	}
 	if k := strings.Index(out, "WARNING:"); k >= 0 {
 		e := out[k:]
 		if j := strings.Index(e, "\n"); j >= 0 {
@@ -414,6 +462,14 @@ func (v *Verifier) solveScript(fx *FnCtx, sc *Script, n int, filter func(string)
 			continue
 		}
 		a := ans[i]
+		if d, ok := decided[i]; ok && !ob.Cover {
+			if a == "unsat" && d.status == "ok" {
+				record(ob, "ok", primary.name, per, nil)
+			} else {
+				record(ob, d.status, d.by, d.ms, d.fail)
+			}
+			continue
+		}
 		if ob.Cover {
 			if a == "unsat" {
 				record(ob, "vacuous", primary.name, per, nil)
@@ -431,6 +487,13 @@ func (v *Verifier) solveScript(fx *FnCtx, sc *Script, n int, filter func(string)
 			} else {
 				record(ob, "ok", primary.name, per, nil)
 			}
+			continue
+		}
+		v.mu.Lock()
+		prev := v.failedOnce[ob.Name]
+		v.mu.Unlock()
+		if prev != nil {
+			record(ob, "failed", "", 0, &Failure{Trace: sc.Trace, Answers: prev.Answers, Formula: ob.Formula, Model: prev.Model})
 			continue
 		}
 		v.standalone(fx, sc, n, i, record)
@@ -522,5 +585,11 @@ func (v *Verifier) standalone(fx *FnCtx, sc *Script, n, i int, record func(*Obli
 		os.WriteFile(fn, []byte(text), 0644)
 		f.SMTFile = fn
 	}
+	v.mu.Lock()
+	if v.failedOnce == nil {
+		v.failedOnce = map[string]*Failure{}
+	}
+	v.failedOnce[ob.Name] = f
+	v.mu.Unlock()
 	record(ob, "failed", "", 0, f)
 }
